@@ -16,6 +16,22 @@ impl Errno {
     pub const INVAL: Errno = Errno(22);
     pub const NOSPC: Errno = Errno(28);
     pub const INTR: Errno = Errno(4);
+    pub const NOENT: Errno = Errno(2);
+    pub const BADF: Errno = Errno(9);
+    pub const NOMEM: Errno = Errno(12);
+    pub const EXIST: Errno = Errno(17);
+    pub const NOTDIR: Errno = Errno(20);
+    pub const ISDIR: Errno = Errno(21);
+    pub const MFILE: Errno = Errno(24);
+    pub const FBIG: Errno = Errno(27);
+    pub const ROFS: Errno = Errno(30);
+    pub const NAMETOOLONG: Errno = Errno(36);
+    pub const NOTEMPTY: Errno = Errno(39);
+    pub const LOOP: Errno = Errno(40);
+    pub const NOTSUP: Errno = Errno(95);
+    pub const DQUOT: Errno = Errno(122);
+    pub const TXTBSY: Errno = Errno(26);
+    pub const OVERFLOW: Errno = Errno(75);
 }
 
 #[derive(PartialEq, Eq, Clone, Copy, Structural)]
